@@ -4,6 +4,11 @@ NOTES = ("All checks run /venv/bin/python on bitstring imported from /repo's wor
          "known_findings.json lists genuine defects (open: reported as KNOWN-FINDING; fixed: suppress nothing).")
 NOT_APPLICABLE = {}
 CHECKS = {
+ 'C03': dict(
+    text="Explicit-state breadth-first search over mutator histories on one real BitArray/BitStream: from every root (class x content x construction route) the full event menu (~700 events derived from the current length: every mutator, positions in/at/beyond the ends, negative indices, steps, empty and self operands, range/list/generator positions) is applied at depth 1, reduced menus deeper, with (bits, hidden-state fingerprint) deduplication; every transition is replayed from the root on fresh objects and its return value and complete post-content are compared with a list-of-bits reference model, which implies the frame condition.",
+    design_ref="DESIGN.md section 4 C03",
+    note="Trusts the reference model bsmc/models/mut.py (self-tested against the examples in doc/bitarray.rst). Exception classes are judged in C20, here any exception counts as 'raises' and the content must then be unchanged. Content capped at 14 bits (40 for byte-structured roots).",
+    technique="explicit-state BFS over operation histories with state deduplication, replay-from-root, lock-step reference model"),
  'C10': dict(
     text="Bounded exhaustive exploration: every integer of a window around 0 and every +-(2**k+d) up to 2**200 is encoded through every creation route and compared with codewords computed from the H.264/Dirac definitions; every bit string up to 15 (quick) / 18 (thorough) bits is fed to every decoder entry point (read, peek, unpack, property, Dtype.parse) at pos 0 and after junk bits and compared with a reference prefix parser (value, new pos, ReadError/ValueError, pos unchanged); every sequence of <= 3/4 mixed codewords is read back step by step.",
     design_ref="DESIGN.md section 4 C10",
